@@ -20,6 +20,16 @@ CLAIMED = {
    technique="Coq-verified validator of the reduction's output (soundness theorem) + closure-law theorems; per-input validation",
    category="proof",
    design="6 C02"),
+ "C03": dict(
+   text="Proof at the specification level + metamorphic exploration. Proved for every n: each listed re-presentation (reorder/duplicate, qubit permutation, per-site X/Y/Z relabelling, appended identities, contraction, added product) maps the commutator closure bijectively onto the closure of the transformed generators preserving product and symplectic form, so the true algebra is invariant; a differing answer of the classifier on (G, tau G) is therefore a violation with a concrete replay at any size. Per run: 7 transformations on collections n=2..16, 3 repeated calls, re-runs under PYTHONHASHSEED in {0,1,2,random} in fresh processes.",
+   note="The implementation's answers are compared with each other (normalised summand multisets); agreement with the truth is C01. For n<=6 the oracle confirms that the harness's transformations preserve the invariants. No axioms.",
+   technique="Coq proofs of closure transport (homomorphism lemmas) + metamorphic differential runs",
+   design="6 C03"),
+ "C08": dict(
+   text="Proof of the specification + exploration. Model/Member.v computes select_dependents / is_in / is_eq / get_space from the verified closure; C08_* theorems say these decide membership in the inductive closure Cl for every n. Per run the implementation's four queries on generated (G, X) (members, one-letter near misses, commuting strings, identity, duplicates, permuted generator lists) are compared with the model, n<=5 quick / n<=7 thorough.",
+   note="The implementation's check-mode pipeline is not modelled. get_space is compared with closure minus identity. No axioms.",
+   technique="Coq-verified membership specification over the closure oracle; differential exploration",
+   design="6 C08"),
  "C04": dict(
    text="Proof: Coq theorems C04_product/commute/adjoint/conj/reject hold for every n and every pair of strings, about a bit-level model of PauliString.sign/commutes_with/multiply/adjoint_map/complex_conj and the Kronecker-product matrices over Z[i]. The model is tied to /repo on every run by a correspondence run: all 16^n pairs n<=3 (n<=4 thorough) plus random pairs up to n=64 and all length mismatches, implementation vs extracted model, and numpy matrices multiplied out for n<=3.",
    note="Trusted: Coq kernel, extraction (ExtrOcamlBasic), OCaml driver, Python harness; numpy kron/@ taken as the matrices. No axioms (Print Assumptions: closed).",
